@@ -10,6 +10,7 @@ import (
 	"fmt"
 
 	"github.com/google/badwolf/storage"
+	"github.com/google/badwolf/storage/memory"
 	"github.com/google/badwolf/triple"
 	"github.com/google/badwolf/triple/node"
 	"github.com/google/badwolf/triple/predicate"
@@ -146,4 +147,55 @@ func init() {
 				el.spawn(h, g, el.name+"/latest", optionsFor("latest"), c, false, false)
 			}})
 	}
+}
+
+// S4b: writes and reads through handles while the graph is dropped and re-created. One thread adds through a handle
+// obtained before, one fetches a handle and adds through it (what a BQL INSERT does), one drops the graph, one
+// creates it again. No panic, no deadlock; the store-level operations are linearizable; what the handle operations
+// return is not judged (a write through a stale handle is lost, as C01 states for the sequential case).
+func init() {
+	scenarios = append(scenarios, scenario{
+		Name: "S4b", Class: "S4b:Add-through-handle|Graph+Add|DeleteGraph|NewGraph", Mode: explore.SleepSets, Hedge: true, Store: true, OneCap: true,
+		Body: func(h *hctx, c int) {
+			st := memory.NewStore()
+			g0, err := st.NewGraph(ctx, "?x")
+			if err != nil {
+				panic(err)
+			}
+			h.record(9, gin{Kind: "new"}, -1, 0, gout{OK: true})
+			h.wg.Add(4)
+			vrt.GoNamed("add-old-handle", func() {
+				defer h.wg.Done()
+				g0.AddTriples(ctx, pick(0b0001))
+				g0.Exist(ctx, U[0])
+			})
+			vrt.GoNamed("get+add", func() {
+				defer h.wg.Done()
+				cl := h.tick()
+				g, err := st.Graph(ctx, "?x")
+				r := h.tick()
+				h.record(1, gin{Kind: "get"}, cl, r, gout{Err: err != nil, OK: g != nil})
+				if err == nil {
+					g.AddTriples(ctx, pick(0b0010))
+					g.RemoveTriples(ctx, pick(0b0010))
+				}
+			})
+			vrt.GoNamed("del", func() {
+				defer h.wg.Done()
+				cl := h.tick()
+				err := st.DeleteGraph(ctx, "?x")
+				r := h.tick()
+				h.record(2, gin{Kind: "del"}, cl, r, gout{Err: err != nil})
+			})
+			vrt.GoNamed("new", func() {
+				defer h.wg.Done()
+				cl := h.tick()
+				g, err := st.NewGraph(ctx, "?x")
+				r := h.tick()
+				h.record(3, gin{Kind: "new"}, cl, r, gout{Err: err != nil, OK: g != nil})
+				if err == nil {
+					g.AddTriples(ctx, pick(0b0100))
+				}
+			})
+		}})
 }
